@@ -415,8 +415,7 @@ def _is_iter_none_exit(b, x, tgt, next_bi):
     return False
 
 
-# R13_7_PENDING: set to True together with the /repo repair findings/pending/fix_c13_gap_ack_cancels_retransmission.diff
-R13_7_STRICT = False
+R13_7_STRICT = True
 
 
 def r13_7(ctx):
